@@ -2,7 +2,7 @@
 
 use crate::common::*;
 use crate::sim::{self, Monitor};
-use crate::{catchup, fd, hostile, kv, listen, mtu, pairs, select, wirecheck};
+use crate::{catchup, fd, hostile, kv, listen, mtu, pairs, select, srv, wirecheck};
 
 pub fn run_property(ctx: &Ctx) -> Option<Report> {
     let r = match ctx.prop.as_str() {
@@ -129,6 +129,15 @@ pub fn run_property(ctx: &Ctx) -> Option<Report> {
             hostile::run(ctx, &mut r);
             r
         }
+        "C19" => {
+            let mut r = Report::new(
+                "cases = scripts of up to 12 events over {next sends succeed / fail with 'message too long' or 'unreachable', valid SYN / foreign SYN / SYN-ACK / ACK / BadCluster arrives, virtual delay, user lock acquisition, user gossip request, fatal recv error, panic in recv, shutdown} against spawn_chitchat on a scripted in-process transport with the paused clock driving the gossip ticks; plus a loopback UDP smoke (garbage, truncated, bit-flipped and 65,507-byte datagrams on the real transport);                  non-trivial = script with a send error followed by a later successful exchange, or a fatal event; distinct = by script",
+            );
+            r.assume("single-threaded paused runtime: the schedule is a function of the script; genuinely parallel interleavings of the tokio mutex are not explored");
+            r.assume("a virtual-time timeout of 1 h means deadlock/stall (deterministic); real-time timeouts in the UDP smoke are inconclusive, never a violation");
+            srv::run(ctx, &mut r);
+            r
+        }
         _ => return None,
     };
     Some(r)
@@ -143,6 +152,7 @@ pub fn replay_property(ctx: &Ctx, sub: &str, case: &serde_json::Value) -> SubRes
         "C08" => wirecheck::replay(ctx, sub, case),
         "C14" => pairs::replay_c14(ctx, sub, case),
         "C18" => catchup::replay(ctx, sub, case),
+        "C19" => srv::replay(ctx, sub, case),
         "C09" => hostile::replay(ctx, sub, case),
         "C10" => fd::replay(ctx, sub, case, "C10"),
         "C11" => fd::replay(ctx, sub, case, "C11"),
